@@ -1,6 +1,6 @@
 From Coq Require Import List NArith QArith Reals Lra Psatz Bool Lia.
 From D3 Require Import Base.Ops Base.Vec Base.RVec Spec.Convex Spec.ConvexHull Model.SimplexOrig
-  Proofs.SimplexTriangle Proofs.SimplexTetra Proofs.SimplexOrig Proofs.SimplexOrigCand.
+  Proofs.SimplexTriangle Proofs.SimplexTetra Proofs.SimplexCara Proofs.SimplexOrig Proofs.SimplexOrigCand.
 Import ListNotations.
 Local Open Scope R_scope.
 
@@ -8,9 +8,11 @@ Local Open Scope R_scope.
       (V6 <> 0) the result is the minimum-norm point, provided the origin is not strictly inside
       (some barycentric coordinate of the origin <= 0) or all four degree-6 cofactors exceed
       EPSILON (then the tetrahedron candidate is tried and satisfies the variational equalities).
-      All real inputs under these hypotheses; excluded are exactly: the origin strictly inside
-      with a cofactor <= EPSILON (there the result is WRONG: C18_orig_backup_refuted) and
-      degenerate tetrahedra (covered on the lattice).
+      Flat tetrahedra (V6 = 0: coplanar, collinear, coincident points): minimum-norm point, always
+      ([backup_tetra_flat_optimal], via Caratheodory).
+      All real inputs under these hypotheses; excluded is exactly: the origin strictly inside a
+      non-degenerate tetrahedron with a cofactor <= EPSILON (there the result is WRONG:
+      C18_orig_backup_refuted).
     Proof: (1) [tetra_tried]: the result is no worse than each of the 15 candidates it tries;
     (2) the tried candidates of each face are Johnson's candidates of that triangle;
     (3) [tri_cand_exists] gives on each face a tried candidate that is minimum-norm on the face;
@@ -436,6 +438,27 @@ Section Tetra.
       pose proof (face_bound y0 y3 y2 y tried_face_032 Hy'). lra.
     - pose proof (face_bound y0 y1 y3 y tried_face_013 Hy). lra.
     - pose proof (face_bound y0 y1 y2 y tried_face_012 Hy). lra.
+  Qed.
+
+  (** flat tetrahedron (V6 = 0): the hull is the union of the four faces (Caratheodory) *)
+  Theorem backup_tetra_flat_optimal :
+    V6 y0 y1 y2 y3 = 0 ->
+    is_min_norm [y0; y1; y2; y3] (s_v (b_sol (@backup_procedure_tetrahedron R ROps [y0; y1; y2; y3]))).
+  Proof.
+    intros HV. change (is_min_norm Y (s_v (b_sol r))).
+    assert (Hbp : @backup_procedure R ROps Y = Some r) by reflexivity.
+    destruct (backup_in_hull _ _ Hbp) as [_ Hin].
+    destruct (backup_valid _ _ Hbp) as (_ & _ & _ & _ & _ & _ & Hd2).
+    cut (forall x, conv_hull Y x -> R0 <= dot x x).
+    { intros Hle. split; auto. intros x Hx. apply norm_le_of_sq. rewrite <- Hd2. apply Hle. exact Hx. }
+    intros x Hx.
+    destruct (flat_hull_faces y0 y1 y2 y3 x HV Hx) as [Hy|[Hy|[Hy|Hy]]].
+    - assert (Hy' : conv_hull [y3; y1; y2] x) by (revert Hy; apply conv_hull_incl; intros w [<-|[<-|[<-|[]]]]; simpl; auto).
+      exact (face_bound y3 y1 y2 x tried_face_312 Hy').
+    - assert (Hy' : conv_hull [y0; y3; y2] x) by (revert Hy; apply conv_hull_incl; intros w [<-|[<-|[<-|[]]]]; simpl; auto).
+      exact (face_bound y0 y3 y2 x tried_face_032 Hy').
+    - exact (face_bound y0 y1 y3 x tried_face_013 Hy).
+    - exact (face_bound y0 y1 y2 x tried_face_012 Hy).
   Qed.
 End Tetra.
 
